@@ -172,7 +172,7 @@ PLAN["C11"] = dict(
 )
 
 PLAN["C12"] = dict(
-    technique="stateful PBT: generated histories of (input, flags, complete/abandon-while-suspended/fail) + Reset/Init on one object with caller-supplied arrays, then a probe compared step by step with a new object",
+    technique="stateful PBT: generated histories of (input, flags, complete/abandon-while-suspended/fail, array switch) + Reset/Init on one object with caller-supplied arrays, then a probe compared step by step with a new object; small-scope enumeration of (first use x abandon point x Reset/Init x probe)",
     level_text=("Exploration: for every parser object (message, header values, header list, contact/identity lists, name-addr, "
                 "CSeq, Call-ID, integer, first line, header, token parameter, URI parameter/header lists, parsed URI) a history "
                 "of 1..5 uses - complete parses, parses abandoned after 1-2 calls while suspended, failing parses, each with its "
@@ -183,10 +183,12 @@ PLAN["C12"] = dict(
     rule=("case = (object kind, capacities, list of operations, probe input + schedule); non-trivial = the history contains at "
           "least one abandoned or failed operation and the probe reaches a definitive verdict (URI: both URIs parse); distinct by case hash"),
     quick=[
+        dict(kind="enum", test="TestC12Scope", solo=True, timeout=900),
         dict(test="TestC12Rapid", checks=30000, shards=10, counts=["C12.reset"]),
         dict(test="TestC12URIRapid", checks=20000, shards=2, counts=["C12.uri"]),
     ],
     thorough=[
+        dict(kind="enum", test="TestC12Scope", solo=True, timeout=5400, env={"VERIF_DEPTH": 1}),
         dict(test="TestC12Rapid", checks=1000000, shards=14, counts=["C12.reset"], timeout=5400),
         dict(test="TestC12URIRapid", checks=2000000, shards=2, counts=["C12.uri"], timeout=5400),
     ],
